@@ -1,6 +1,6 @@
 (** Typed/HandProofs.v — round trip of the hand-written Rectangle and Matrix pairs, and the hand law used to close
     the generic theorem for the concrete table Hand.hands. *)
-From PdfV Require Import Base.Prelude Typed.Prim Typed.Schema Typed.Derive Typed.Hand.
+From PdfV Require Import Base.Prelude Gen.Generated Typed.Prim Typed.Schema Typed.Derive Typed.Hand.
 
 Lemma numbers_pnum l : numbers (map (fun z => PNum (Z.to_N z)) l) = TOk (map (fun z => Z.of_N (Z.to_N z)) l).
 Proof. induction l as [|z l IH]; cbn [map numbers]; [reflexivity|]. cbn [as_number tbind]. rewrite IH. reflexivity. Qed.
@@ -23,26 +23,15 @@ Proof.
   rewrite numbers_pnum. cbn [tmap write_numbers]. rewrite map_length, Hl. cbn [Nat.eqb]. rewrite map_to_of. split; reflexivity.
 Qed.
 
-Theorem matrix_rt v p : write_numbers 6 v = TOk p ->
-  exists v', read_matrix p = TOk v' /\ write_numbers 6 v' = TOk p.
+Theorem matrix_rt rs v p : write_numbers 6 v = TOk p ->
+  exists v', read_matrix rs p = TOk v' /\ write_numbers 6 v' = TOk p.
 Proof.
   destruct v; cbn [write_numbers]; try discriminate.
   destruct (length l =? 6)%nat eqn:Hl; [|discriminate]. intros Hp. inversion Hp. subst p.
   apply Nat.eqb_eq in Hl.
   exists (VNums (map (fun z => Z.of_N (Z.to_N z)) l)).
-  unfold read_matrix. cbn [tbind into_array]. rewrite <- Hl at 1. rewrite take_numbers_pnum.
-  cbn [tmap write_numbers]. rewrite map_length, Hl. cbn [Nat.eqb]. rewrite map_to_of. split; reflexivity.
-Qed.
-
-(* the values of hand-written types covered by a proved round trip *)
-Definition hand_ok (i : N) (v : value) : Prop := i = hid_Rectangle \/ i = hid_Matrix.
-
-Theorem hands_law E : forall i x p, hand_ok i x -> h_write hands i x = TOk p ->
-  exists x', h_read hands i (resolve E) p = TOk x' /\ h_write hands i x' = TOk p.
-Proof.
-  intros i x p [Hi|Hi] Hw; subst i; cbn [hands h_write h_read] in *; unfold hand_write, hand_read in *; cbn in Hw |- *.
-  - eapply rectangle_rt. exact Hw.
-  - eapply matrix_rt. exact Hw.
+  unfold read_matrix. destruct matrix_reader_resolves; cbn [resolve_if_ref tbind into_array]; rewrite <- Hl at 1; rewrite take_numbers_pnum;
+  cbn [tmap write_numbers]; rewrite map_length, Hl; cbn [Nat.eqb]; rewrite map_to_of; split; reflexivity.
 Qed.
 
 (* non-vacuity: a Date, a Rectangle and a Matrix go through their pairs *)
@@ -55,3 +44,201 @@ Example rectangle_example :
   tbind (write_numbers 4 (VNums [0; 0; 1142947840; 1145569280]%Z)) (read_rectangle (fun _ => TErr (EBase 1)))
   = TOk (VNums [0; 0; 1142947840; 1145569280]%Z).
 Proof. vm_compute. reflexivity. Qed.
+
+(** * Date: every value the writer accepts reads back to a value with the same written form *)
+(** * Date round trip *)
+
+(* digit bytes are neither separators, nor '+', nor non-ASCII *)
+Lemma date_digit_range c : is_digit c = true -> 48 <= c <= 57.
+Proof. unfold is_digit. intros H. apply andb_true_iff in H. destruct H as [H1 H2]. apply N.leb_le in H1, H2. lia. Qed.
+
+Lemma date_digit_not_sep c : is_digit c = true -> is_sep c = false.
+Proof.
+  intros H. apply date_digit_range in H. unfold is_sep.
+  destruct (N.eqb_spec c 43); [lia|]. destruct (N.eqb_spec c 45); [lia|]. destruct (N.eqb_spec c 90); [lia|]. reflexivity.
+Qed.
+
+Lemma date_digit_ascii c : is_digit c = true -> (c <? 128) = true.
+Proof. intros H. apply date_digit_range in H. apply N.ltb_lt. lia. Qed.
+
+Lemma date_digit_not_plus c : is_digit c = true -> (c =? 43) = false.
+Proof. intros H. apply date_digit_range in H. apply N.eqb_neq. lia. Qed.
+
+(* the two- and four-digit fields, by a computed sweep *)
+Definition date_chk2 (k : N) : bool :=
+  match pad 2 k with
+  | [a; b] => is_digit a && is_digit b && match digits_val [a; b] 0 with Some v => v =? k | None => false end
+  | _ => false
+  end.
+
+Definition date_chk4 (k : N) : bool :=
+  match pad 4 k with
+  | [a; b; c; d] => is_digit a && is_digit b && is_digit c && is_digit d
+                    && match digits_val [a; b; c; d] 0 with Some v => v =? k | None => false end
+  | _ => false
+  end.
+
+Lemma date_chk2_all : forallb date_chk2 (seqN 0 (N.to_nat 100)) = true.
+Proof. vm_compute. reflexivity. Qed.
+
+Lemma date_chk4_all : forallb date_chk4 (seqN 0 (N.to_nat 10000)) = true.
+Proof. vm_compute. reflexivity. Qed.
+
+Lemma date_pad2 k : k < 100 ->
+  exists a b, pad 2 k = [a; b] /\ is_digit a = true /\ is_digit b = true /\ digits_val [a; b] 0 = Some k.
+Proof.
+  intros Hk. pose proof date_chk2_all as H. rewrite forallb_forall in H.
+  specialize (H k). rewrite seqN_In, N2Nat.id in H. specialize (H ltac:(lia)).
+  unfold date_chk2 in H.
+  destruct (pad 2 k) as [|a [|b [|c l]]]; try discriminate.
+  exists a, b. apply andb_true_iff in H. destruct H as [H H3]. apply andb_true_iff in H. destruct H as [H1 H2].
+  destruct (digits_val [a; b] 0) as [v|]; [|discriminate]. apply N.eqb_eq in H3. subst v. auto.
+Qed.
+
+Lemma date_pad4 k : k < 10000 ->
+  exists a b c d, pad 4 k = [a; b; c; d] /\ is_digit a = true /\ is_digit b = true /\ is_digit c = true /\
+                  is_digit d = true /\ digits_val [a; b; c; d] 0 = Some k.
+Proof.
+  intros Hk. pose proof date_chk4_all as H. rewrite forallb_forall in H.
+  specialize (H k). rewrite seqN_In, N2Nat.id in H. specialize (H ltac:(lia)).
+  unfold date_chk4 in H.
+  destruct (pad 4 k) as [|a [|b [|c [|d [|e l]]]]]; try discriminate.
+  exists a, b, c, d. apply andb_true_iff in H. destruct H as [H H5]. apply andb_true_iff in H. destruct H as [H H4].
+  apply andb_true_iff in H. destruct H as [H H3]. apply andb_true_iff in H. destruct H as [H1 H2].
+  destruct (digits_val [a; b; c; d] 0) as [v|]; [|discriminate]. apply N.eqb_eq in H5. subst v. auto 10.
+Qed.
+
+Lemma date_parse_unsigned c t k max :
+  is_digit c = true -> digits_val (c :: t) 0 = Some k -> k <= max -> parse_unsigned (c :: t) max = Some k.
+Proof.
+  intros Hc Hd Hk. unfold parse_unsigned. rewrite (date_digit_not_plus c Hc), Hd.
+  apply N.leb_le in Hk. rewrite Hk. reflexivity.
+Qed.
+
+(* the reader on a string of the writer's shape *)
+Lemma date_read_shape rs y1 y2 y3 y4 yr m1 m2 mo d1 d2 dd h1 h2 hh i1 i2 mi s1 s2 ss o t1 t2 th u1 u2 tm :
+  is_digit y1 = true -> is_digit y2 = true -> is_digit y3 = true -> is_digit y4 = true ->
+  digits_val [y1; y2; y3; y4] 0 = Some yr -> yr < 10000 ->
+  is_digit m1 = true -> is_digit m2 = true -> digits_val [m1; m2] 0 = Some mo -> mo < 100 ->
+  is_digit d1 = true -> is_digit d2 = true -> digits_val [d1; d2] 0 = Some dd -> dd < 100 ->
+  is_digit h1 = true -> is_digit h2 = true -> digits_val [h1; h2] 0 = Some hh -> hh < 100 ->
+  is_digit i1 = true -> is_digit i2 = true -> digits_val [i1; i2] 0 = Some mi -> mi < 100 ->
+  is_digit s1 = true -> is_digit s2 = true -> digits_val [s1; s2] 0 = Some ss -> ss < 100 ->
+  is_digit t1 = true -> is_digit t2 = true -> digits_val [t1; t2] 0 = Some th -> th < 100 ->
+  is_digit u1 = true -> is_digit u2 = true -> digits_val [u1; u2] 0 = Some tm -> tm < 100 ->
+  is_sep o = true -> (o <? 128) = true ->
+  read_date rs (PStr [68; 58; y1; y2; y3; y4; m1; m2; d1; d2; h1; h2; i1; i2; s1; s2; o; t1; t2; 39; u1; u2])
+  = TOk (VNums (map Z.of_N [yr; mo; dd; hh; mi; ss; (if o =? 45 then 0 else if o =? 43 then 1 else 2); th; tm])).
+Proof.
+  intros Hy1 Hy2 Hy3 Hy4 Hyr Byr Hm1 Hm2 Hmo Bmo Hd1 Hd2 Hdd Bdd Hh1 Hh2 Hhh Bhh Hi1 Hi2 Hmi Bmi Hs1 Hs2 Hss Bss
+         Ht1 Ht2 Hth Bth Hu1 Hu2 Htm Btm Ho Hoa.
+  unfold read_date. cbn [resolve_if_ref tbind].
+  assert (Ha : ascii [68; 58; y1; y2; y3; y4; m1; m2; d1; d2; h1; h2; i1; i2; s1; s2; o; t1; t2; 39; u1; u2] = true).
+  { unfold ascii. cbn [forallb].
+    change (68 <? 128) with true. change (58 <? 128) with true. change (39 <? 128) with true.
+    rewrite Hoa, (date_digit_ascii y1 Hy1), (date_digit_ascii y2 Hy2), (date_digit_ascii y3 Hy3), (date_digit_ascii y4 Hy4), (date_digit_ascii m1 Hm1), (date_digit_ascii m2 Hm2), (date_digit_ascii d1 Hd1), (date_digit_ascii d2 Hd2), (date_digit_ascii h1 Hh1), (date_digit_ascii h2 Hh2), (date_digit_ascii i1 Hi1), (date_digit_ascii i2 Hi2), (date_digit_ascii s1 Hs1), (date_digit_ascii s2 Hs2), (date_digit_ascii t1 Ht1), (date_digit_ascii t2 Ht2), (date_digit_ascii u1 Hu1), (date_digit_ascii u2 Hu2). reflexivity. }
+  rewrite Ha. cbn [negb].
+  change (68 =? 68) with true. change (58 =? 58) with true. cbn [andb].
+  assert (Hf : find_sep [68; 58; y1; y2; y3; y4; m1; m2; d1; d2; h1; h2; i1; i2; s1; s2; o; t1; t2; 39; u1; u2] 0
+               = Some (16%nat, o)).
+  { cbn [find_sep]. change (is_sep 68) with false. change (is_sep 58) with false.
+    rewrite (date_digit_not_sep y1 Hy1), (date_digit_not_sep y2 Hy2), (date_digit_not_sep y3 Hy3), (date_digit_not_sep y4 Hy4), (date_digit_not_sep m1 Hm1), (date_digit_not_sep m2 Hm2), (date_digit_not_sep d1 Hd1), (date_digit_not_sep d2 Hd2), (date_digit_not_sep h1 Hh1), (date_digit_not_sep h2 Hh2), (date_digit_not_sep i1 Hi1), (date_digit_not_sep i2 Hi2), (date_digit_not_sep s1 Hs1), (date_digit_not_sep s2 Hs2), Ho. reflexivity. }
+  rewrite Hf.
+  unfold slice at 1. cbn [length Nat.leb firstn skipn].
+  rewrite (date_parse_unsigned y1 [y2; y3; y4] yr 65535 Hy1 Hyr ltac:(lia)).
+  unfold parse_or, slice. cbn [length Nat.leb firstn skipn].
+  rewrite (date_parse_unsigned m1 [m2] mo 255 Hm1 Hmo ltac:(lia)).
+  rewrite (date_parse_unsigned d1 [d2] dd 255 Hd1 Hdd ltac:(lia)).
+  rewrite (date_parse_unsigned h1 [h2] hh 255 Hh1 Hhh ltac:(lia)).
+  rewrite (date_parse_unsigned i1 [i2] mi 255 Hi1 Hmi ltac:(lia)).
+  rewrite (date_parse_unsigned s1 [s2] ss 255 Hs1 Hss ltac:(lia)).
+  rewrite (date_parse_unsigned t1 [t2] th 255 Ht1 Hth ltac:(lia)).
+  rewrite (date_parse_unsigned u1 [u2] tm 255 Hu1 Htm ltac:(lia)).
+  reflexivity.
+Qed.
+
+(* Date: every value the writer accepts reads back (whatever the resolver) to a value with the same written form *)
+Theorem date_rt rs v p : write_date v = TOk p ->
+  exists v', read_date rs p = TOk v' /\ write_date v' = TOk p.
+Proof.
+  destruct v; try discriminate.
+  destruct l as [|year [|month [|day [|hour [|minute [|second [|rel [|tzh [|tzm [|x l]]]]]]]]]]; try discriminate.
+  unfold write_date.
+  destruct ((9999 <? Z.to_N year) || (99 <? Z.to_N month) || (99 <? Z.to_N day) || (23 <? Z.to_N hour)
+            || (60 <=? Z.to_N minute) || (60 <=? Z.to_N second) || (24 <=? Z.to_N tzh) || (60 <=? Z.to_N tzm)) eqn:Hr;
+    [discriminate|].
+  intros Hp. inversion Hp as [Hp']. clear Hp Hp'.
+  pose proof Hr as Hr'.
+  repeat (apply orb_false_iff in Hr'; destruct Hr' as [Hr' ?]).
+  repeat match goal with
+         | H : (_ <? _) = false |- _ => apply N.ltb_ge in H
+         | H : (_ <=? _) = false |- _ => apply N.leb_gt in H
+         end.
+  set (o := if Z.to_N rel =? 0 then 45 else if Z.to_N rel =? 1 then 43 else 90).
+  destruct (date_pad4 (Z.to_N year) ltac:(lia)) as (y1 & y2 & y3 & y4 & Ey & Hy1 & Hy2 & Hy3 & Hy4 & Vy).
+  destruct (date_pad2 (Z.to_N month) ltac:(lia)) as (m1 & m2 & Em & Hm1 & Hm2 & Vm).
+  destruct (date_pad2 (Z.to_N day) ltac:(lia)) as (d1 & d2 & Ed & Hd1 & Hd2 & Vd).
+  destruct (date_pad2 (Z.to_N hour) ltac:(lia)) as (h1 & h2 & Eh & Hh1 & Hh2 & Vh).
+  destruct (date_pad2 (Z.to_N minute) ltac:(lia)) as (i1 & i2 & Ei & Hi1 & Hi2 & Vi).
+  destruct (date_pad2 (Z.to_N second) ltac:(lia)) as (s1 & s2 & Es & Hs1 & Hs2 & Vs).
+  destruct (date_pad2 (Z.to_N tzh) ltac:(lia)) as (t1 & t2 & Et & Ht1 & Ht2 & Vt).
+  destruct (date_pad2 (Z.to_N tzm) ltac:(lia)) as (u1 & u2 & Eu & Hu1 & Hu2 & Vu).
+  assert (Ho : is_sep o = true /\ (o <? 128) = true /\
+               Z.to_N (Z.of_N (if o =? 45 then 0 else if o =? 43 then 1 else 2)) =
+               (if o =? 45 then 0 else if o =? 43 then 1 else 2) /\
+               (if (if o =? 45 then 0 else if o =? 43 then 1 else 2) =? 0 then 45
+                else if (if o =? 45 then 0 else if o =? 43 then 1 else 2) =? 1 then 43 else 90) = o).
+  { rewrite N2Z.id. subst o. destruct (Z.to_N rel =? 0); [|destruct (Z.to_N rel =? 1)]; repeat split; reflexivity. }
+  destruct Ho as (Ho1 & Ho2 & Ho3 & Ho4).
+  exists (VNums (map Z.of_N [Z.to_N year; Z.to_N month; Z.to_N day; Z.to_N hour; Z.to_N minute; Z.to_N second;
+                             (if o =? 45 then 0 else if o =? 43 then 1 else 2); Z.to_N tzh; Z.to_N tzm])).
+  split.
+  - rewrite Ey, Em, Ed, Eh, Ei, Es, Et, Eu. cbn [app].
+    apply date_read_shape; try assumption; lia.
+  - cbn [map]. rewrite !N2Z.id. rewrite Hr. rewrite Ho4. reflexivity.
+Qed.
+
+(** * Action (after fix C15-b): a Goto with a named destination, and any other action whose /S is a name other than
+      GoTo, reads back to a value with the same written form *)
+Definition action_ok (v : value) : Prop :=
+  match v with
+  | VSome (VStr _) => True
+  | VDict d => exists n, dget k_S d = Some (PName n) /\ beqb n n_GoTo = false
+  | _ => False
+  end.
+
+Theorem action_rt rs v p : action_ok v -> write_action v = TOk p ->
+  exists v', read_action rs p = TOk v' /\ write_action v' = TOk p.
+Proof.
+  destruct v as [| | | | | |d| | | |x| | | | | | | | |]; cbn [action_ok]; try contradiction.
+  - intros [n [Hs Hn]] Hw. cbn [write_action] in Hw. inversion Hw. subst p.
+    exists (VDict d). unfold read_action. cbn [resolve_if_ref tbind into_dictionary t_try].
+    rewrite Hs. cbn [as_name tbind]. rewrite Hn. split; reflexivity.
+  - destruct x; try contradiction. intros _ Hw. cbn [write_action] in Hw. inversion Hw. subst p.
+    exists (VSome (VStr s)). split; reflexivity.
+Qed.
+
+(* before the fix the Goto arm wrote only /D: such a dictionary is not an action for the reader *)
+Lemma action_goto_without_S_unreadable rs s :
+  read_action rs (PDict (dinsert k_D (PStr s) [])) = TErr (EBase c_NoneError).
+Proof. reflexivity. Qed.
+
+(** * NameTree: whatever is read cannot be written — the writer is `todo!()` (open finding C15-c) *)
+Lemma nametree_write_refuted : exists rs p v, read_nametree rs p = TOk v /\ write_nametree v = TPanic site_nametree_todo.
+Proof.
+  exists (fun _ => TErr (EBase 1)), (PDict [(k_Names, PArr [PStr [97]; PInt 1])]). eexists. split; [vm_compute; reflexivity|reflexivity].
+Qed.
+
+(** * the values of hand-written types covered by a proved round trip, and the law that closes the generic theorem *)
+Definition hand_ok (i : N) (v : value) : Prop :=
+  i = hid_Rectangle \/ i = hid_Matrix \/ i = hid_Date \/ (i = hid_Action /\ action_ok v).
+
+Theorem hands_law E : forall i x p, hand_ok i x -> h_write hands i x = TOk p ->
+  exists x', h_read hands i (resolve E) p = TOk x' /\ h_write hands i x' = TOk p.
+Proof.
+  intros i x p [Hi|[Hi|[Hi|[Hi Hok]]]] Hw; subst i; cbn [hands h_write h_read] in *; unfold hand_write, hand_read in *; cbn in Hw |- *.
+  - eapply rectangle_rt. exact Hw.
+  - eapply matrix_rt. exact Hw.
+  - eapply date_rt. exact Hw.
+  - eapply action_rt; eassumption.
+Qed.
